@@ -61,6 +61,36 @@ static const Kern KERNS[] = {
 #endif
 };
 static const int NK = sizeof(KERNS) / sizeof(KERNS[0]);
+// ---- in-place forms: the output register is the same object as an operand ---------------------------------
+// (the library itself calls its kernels this way: add_avx(st0, st0, c0), mult_avx(A_, A_, aux0_), ...). Relation checked: the result
+// is bit-identical to the call with a separate output register.
+typedef void (*RunFn)(const uint64_t *a, const uint64_t *b, uint64_t *o1, uint64_t *o2);
+struct Alias { const char *name; RunFn out_is_a, out_is_b; };
+#define SIG const uint64_t *a, const uint64_t *b, uint64_t *o, uint64_t *o2
+#define A4_BIN(fn) [](SIG) { LD4(x, a); LD4(y, b); Goldilocks::fn(x, x, y); ST4(o, x); }, [](SIG) { LD4(x, a); LD4(y, b); Goldilocks::fn(y, x, y); ST4(o, y); }
+#define A4_UN(fn) [](SIG) { LD4(x, a); Goldilocks::fn(x, x); ST4(o, x); }, nullptr
+#define A4_BIN2(fn) [](SIG) { LD4(x, a); LD4(y, b); Goldilocks::fn(x, y, x, y); ST4(o, x); ST4(o2, y); }, [](SIG) { LD4(x, a); LD4(y, b); Goldilocks::fn(y, x, x, y); ST4(o, y); ST4(o2, x); }
+#define A4_UN2(fn) [](SIG) { LD4(x, a); __m256i l; Goldilocks::fn(x, l, x); ST4(o, x); ST4(o2, l); }, [](SIG) { LD4(x, a); __m256i h; Goldilocks::fn(h, x, x); ST4(o, h); ST4(o2, x); }
+static const Alias ALIASES[] = {
+    {"c02.toCanonical_avx", A4_UN(toCanonical_avx)}, {"c02.toCanonical_avx_s", A4_UN(toCanonical_avx_s)},
+    {"c02.add_avx", A4_BIN(add_avx)}, {"c02.add_avx_a_sc", A4_BIN(add_avx_a_sc)}, {"c02.add_avx_s_b_small", A4_BIN(add_avx_s_b_small)}, {"c02.add_avx_b_small", A4_BIN(add_avx_b_small)},
+    {"c02.sub_avx", A4_BIN(sub_avx)}, {"c02.sub_avx_s_b_small", A4_BIN(sub_avx_s_b_small)},
+    {"c02.mult_avx", A4_BIN(mult_avx)}, {"c02.mult_avx_8", A4_BIN(mult_avx_8)}, {"c02.mult_avx_128", A4_BIN2(mult_avx_128)}, {"c02.mult_avx_72", A4_BIN2(mult_avx_72)},
+    {"c02.square_avx", A4_UN(square_avx)}, {"c02.square_avx_128", A4_UN2(square_avx_128)},
+    {"c02.reduce_avx_128_64", A4_BIN(reduce_avx_128_64)}, {"c02.reduce_avx_96_64", A4_BIN(reduce_avx_96_64)},
+#ifdef __AVX512__
+#define A8_BIN(fn) [](SIG) { LD8(x, a); LD8(y, b); Goldilocks::fn(x, x, y); ST8(o, x); }, [](SIG) { LD8(x, a); LD8(y, b); Goldilocks::fn(y, x, y); ST8(o, y); }
+#define A8_UN(fn) [](SIG) { LD8(x, a); Goldilocks::fn(x, x); ST8(o, x); }, nullptr
+#define A8_BIN2(fn) [](SIG) { LD8(x, a); LD8(y, b); Goldilocks::fn(x, y, x, y); ST8(o, x); ST8(o2, y); }, [](SIG) { LD8(x, a); LD8(y, b); Goldilocks::fn(y, x, x, y); ST8(o, y); ST8(o2, x); }
+#define A8_UN2(fn) [](SIG) { LD8(x, a); __m512i l; Goldilocks::fn(x, l, x); ST8(o, x); ST8(o2, l); }, [](SIG) { LD8(x, a); __m512i h; Goldilocks::fn(h, x, x); ST8(o, h); ST8(o2, x); }
+    {"c11.toCanonical_avx512", A8_UN(toCanonical_avx512)}, {"c11.add_avx512", A8_BIN(add_avx512)}, {"c11.add_avx512_b_c", A8_BIN(add_avx512_b_c)},
+    {"c11.sub_avx512", A8_BIN(sub_avx512)}, {"c11.sub_avx512_b_c", A8_BIN(sub_avx512_b_c)}, {"c11.mult_avx512", A8_BIN(mult_avx512)}, {"c11.mult_avx512_8", A8_BIN(mult_avx512_8)},
+    {"c11.mult_avx512_128", A8_BIN2(mult_avx512_128)}, {"c11.mult_avx512_72", A8_BIN2(mult_avx512_72)}, {"c11.square_avx512", A8_UN(square_avx512)}, {"c11.square_avx512_128", A8_UN2(square_avx512_128)},
+    {"c11.reduce_avx512_128_64", A8_BIN(reduce_avx512_128_64)}, {"c11.reduce_avx512_96_64", A8_BIN(reduce_avx512_96_64)},
+#endif
+};
+static const Alias *alias_by_name(const std::string &n) { for (auto &x : ALIASES) if (n == x.name) return &x; return nullptr; }
+
 static const Kern *kern_by_name(const std::string &n) { for (int i = 0; i < NK; i++) if (n == KERNS[i].name) return &KERNS[i]; return nullptr; }
 
 static void constrain(const Kern &k, uint64_t &a, uint64_t &b)
@@ -144,6 +174,20 @@ static bool body_lane(const Case &c, Ctx &ctx)
             if (r % PR != w) return ctx.fail("reduce:" + lane + " got " + hx(r) + " want " + hx(w));
         } break;
         }
+    }
+    // in-place forms (output register = an operand): must give bit-identical lanes
+    if (const Alias *al = alias_by_name(c.prop)) {
+        alignas(64) uint64_t p1[8], p2[8];
+        RunFn fns[2] = {al->out_is_a, al->out_is_b};
+        for (int w = 0; w < 2; w++) {
+            if (!fns[w]) continue;
+            for (int i = 0; i < L; i++) p1[i] = p2[i] = 0xABABABABABABABABull;
+            fns[w](ka, b, p1, p2);
+            for (int i = 0; i < L; i++)
+                if (p1[i] != o1[i] || ((k->kind == PROD128 || k->kind == PROD72 || k->kind == SQ128) && p2[i] != o2[i]))
+                    return ctx.fail(std::string("in-place call (output register is the ") + (w == 0 ? "first" : "second") + " operand) differs from the call with a separate output: lane " + std::to_string(i) + " a=" + hx(a[i]) + " b=" + hx(b[i]) + " got " + hx(p1[i]) + " expected " + hx(o1[i]));
+        }
+        ctx.cls("lane:in-place-forms-checked");
     }
     if (nt) ctx.nontrivial = true;
     return true;
@@ -267,6 +311,10 @@ static bool body_mat(const Case &c, Ctx &ctx)
         case M_SPMV: case M_SPMV_A: case M_SPMV_8: {
             __m256i r; if (k->kind == M_SPMV) Goldilocks::spmv_avx_4x12(r, a0, a1, a2, co); else if (k->kind == M_SPMV_A) Goldilocks::spmv_avx_4x12_a(r, a0, a1, a2, co); else Goldilocks::spmv_avx_4x12_8(r, a0, a1, a2, co);
             ST4(o, r); spmv_ref(0, co, w); for (int i = 0; i < 4; i++) cmp("spmv", 0, i, o[i], w[i]);
+            // in-place form: the result register is one of the state registers (bit-identical result expected)
+            { __m256i t[3] = {a0, a1, a2}; int wch = (int)(c.v[1] % 3);
+              if (k->kind == M_SPMV) Goldilocks::spmv_avx_4x12(t[wch], t[0], t[1], t[2], co); else if (k->kind == M_SPMV_A) Goldilocks::spmv_avx_4x12_a(t[wch], t[0], t[1], t[2], co); else Goldilocks::spmv_avx_4x12_8(t[wch], t[0], t[1], t[2], co);
+              alignas(32) uint64_t q[4]; ST4(q, t[wch]); for (int i = 0; i < 4; i++) if (ok && q[i] != o[i]) { ok = false; why = "spmv with the result register being state register " + std::to_string(wch) + " differs from the call with a separate result register (lane " + std::to_string(i) + ")"; } }
         } break;
         case M_DOT: case M_DOT_A: {
             E r = k->kind == M_DOT ? Goldilocks::dot_avx(a0, a1, a2, co) : Goldilocks::dot_avx_a(a0, a1, a2, co);
@@ -275,6 +323,9 @@ static bool body_mat(const Case &c, Ctx &ctx)
         case M_MM4: case M_MM4_A: case M_MM4_8: {
             __m256i r; if (k->kind == M_MM4) Goldilocks::mmult_avx_4x12(r, a0, a1, a2, co); else if (k->kind == M_MM4_A) Goldilocks::mmult_avx_4x12_a(r, a0, a1, a2, co); else Goldilocks::mmult_avx_4x12_8(r, a0, a1, a2, co);
             ST4(o, r); mm4_ref(0, co, w); for (int i = 0; i < 4; i++) cmp("mmult_4x12", 0, i, o[i], w[i]);
+            { __m256i t[3] = {a0, a1, a2}; int wch = (int)(c.v[1] % 3);
+              if (k->kind == M_MM4) Goldilocks::mmult_avx_4x12(t[wch], t[0], t[1], t[2], co); else if (k->kind == M_MM4_A) Goldilocks::mmult_avx_4x12_a(t[wch], t[0], t[1], t[2], co); else Goldilocks::mmult_avx_4x12_8(t[wch], t[0], t[1], t[2], co);
+              alignas(32) uint64_t q[4]; ST4(q, t[wch]); for (int i = 0; i < 4; i++) if (ok && q[i] != o[i]) { ok = false; why = "mmult_4x12 with the result register being state register " + std::to_string(wch) + " differs from the call with a separate result register (lane " + std::to_string(i) + ")"; } }
         } break;
         default: {
             if (k->kind == M_MM) Goldilocks::mmult_avx(a0, a1, a2, co); else if (k->kind == M_MM_A) Goldilocks::mmult_avx_a(a0, a1, a2, co); else Goldilocks::mmult_avx_8(a0, a1, a2, co);
@@ -294,6 +345,9 @@ static bool body_mat(const Case &c, Ctx &ctx)
         case M_SPMV: case M_SPMV_8: {
             __m512i r; if (k->kind == M_SPMV) Goldilocks::spmv_avx512_4x12(r, a0, a1, a2, co); else Goldilocks::spmv_avx512_4x12_8(r, a0, a1, a2, co);
             ST8(o, r); for (int s = 0; s < 2; s++) { spmv_ref(s, co, w); for (int i = 0; i < 4; i++) cmp("spmv512", s, i, o[4 * s + i], w[i]); }
+            { __m512i t[3] = {a0, a1, a2}; int wch = (int)(c.v[1] % 3);
+              if (k->kind == M_SPMV) Goldilocks::spmv_avx512_4x12(t[wch], t[0], t[1], t[2], co); else Goldilocks::spmv_avx512_4x12_8(t[wch], t[0], t[1], t[2], co);
+              alignas(64) uint64_t q[8]; ST8(q, t[wch]); for (int i = 0; i < 8; i++) if (ok && q[i] != o[i]) { ok = false; why = "spmv512 with the result register being state register " + std::to_string(wch) + " differs from the call with a separate result register (lane " + std::to_string(i) + ")"; } }
         } break;
         case M_DOT: {
             E r[2]; Goldilocks::dot_avx512(r, a0, a1, a2, co);
@@ -302,6 +356,9 @@ static bool body_mat(const Case &c, Ctx &ctx)
         case M_MM4: case M_MM4_8: {
             __m512i r; if (k->kind == M_MM4) Goldilocks::mmult_avx512_4x12(r, a0, a1, a2, co); else Goldilocks::mmult_avx512_4x12_8(r, a0, a1, a2, co);
             ST8(o, r); for (int s = 0; s < 2; s++) { mm4_ref(s, co, w); for (int i = 0; i < 4; i++) cmp("mmult512_4x12", s, i, o[4 * s + i], w[i]); }
+            { __m512i t[3] = {a0, a1, a2}; int wch = (int)(c.v[1] % 3);
+              if (k->kind == M_MM4) Goldilocks::mmult_avx512_4x12(t[wch], t[0], t[1], t[2], co); else Goldilocks::mmult_avx512_4x12_8(t[wch], t[0], t[1], t[2], co);
+              alignas(64) uint64_t q[8]; ST8(q, t[wch]); for (int i = 0; i < 8; i++) if (ok && q[i] != o[i]) { ok = false; why = "mmult512_4x12 with the result register being state register " + std::to_string(wch) + " differs from the call with a separate result register (lane " + std::to_string(i) + ")"; } }
         } break;
         default: {
             if (k->kind == M_MM) Goldilocks::mmult_avx512(a0, a1, a2, co); else Goldilocks::mmult_avx512_8(a0, a1, a2, co);
@@ -382,6 +439,20 @@ static rc::Gen<std::vector<uint64_t>> gen_mat(const MKern *k)
                     v[12 * S + 12 * r + t] = ps[t].second;
                 } else v[12 * S + 12 * r + t] = extra[e++ % extra.size()];
             }
+        if (!eight && nc == 12 && (mode >> 58) % 3 == 0) {
+            // lane-result targeting (dot products / one sparse row): one product per lane, its residue chosen from boundary values, so the four
+            // lane results are e.g. (p-1, p-1, 2^32+d, 0) and the horizontal sum crosses 2^64 / p in every way
+            static const uint64_t R[] = {PR - 1, PR - 2, 0x100000000ull, 0xFFFFFFFFull, 0, 1, 0x80000000ull, PR - 0xFFFFFFFFull, 0x8000000000000000ull, 0x7FFFFFFFFFFFFFFFull, PR - 0x100000000ull, 5};
+            for (int t = 0; t < 12; t++) { v[t] = 0; if (S == 2) v[12 + t] = 0; v[12 * S + t] = extra[t]; }
+            for (int i = 0; i < 4; i++) {
+                int blk = (int)((mode >> (4 * i)) % 3), t = 4 * blk + i;
+                uint64_t x = extra[30 + i] % PR; if (x == 0) x = 3;
+                uint64_t r = (R[(mode >> (16 + 4 * i)) % 12] + (extra[40 + i] % 7) + PR - 3) % PR;
+                v[t] = x; if (S == 2) v[12 + t] = (mode & (1ull << (40 + i))) ? x : extra[50 + i];
+                v[12 * S + t] = ref::mul(r, ref::inv(x));
+            }
+            return v;
+        }
         if ((mode >> 52) % 5 == 0) {
             // sparse variant: keep 1..4 state elements (with their solved coefficients), zero the rest
             int kcr = 1 + (int)((mode >> 55) % 4); bool keep[12] = {false};
